@@ -53,7 +53,8 @@ class C23(Check):
     rule = ("configurations keep in {1,2,3} x cycle period in {0.25,0.5,1,2} x size threshold in {0,20,60,200} x flush interval in "
             "{1,2} x reuse x logger period, 6-40 ticks of a unique-valued record stream ('always' rule); per configuration one "
             "crash-free run, then one run per kill point (every simulated file-system call; all if <= 70 else 70 spread evenly), "
-            "each killed run with reuse followed by a restart of the house on the surviving image logging a second stream, "
+            "each killed run with reuse followed by a restart of the house on the surviving image logging a second stream, that "
+            "second process killed again at two drawn points and a third one finishing, "
             "plus 4 runs with an injected rename / open error; non-trivial = at least one rotation happened before the kill; "
             "distinct = digest of (configuration, kill point, surviving files)")
     components = dict(COMPONENTS)
@@ -62,7 +63,7 @@ class C23(Check):
     assumptions = ["'dies' = process death: kernel-visible file state survives, user-space buffers do not; power loss is not modelled",
                    "records rotated out by design (the copy beyond 'keep') are not 'lost'",
                    "after a death an empty header-less newest file is not a violation"]
-    required_probes = ["rotated", "killed-mid-rotation", "killed-with-unflushed", "size-gated", "io-error-branch", "designed-drop", "restarted-after-kill"]
+    required_probes = ["rotated", "killed-mid-rotation", "killed-with-unflushed", "size-gated", "io-error-branch", "designed-drop", "restarted-after-kill", "killed-twice"]
     quick_runs = 120
     thorough_runs = 6000
     shrink_fields = []
@@ -124,18 +125,52 @@ class C23(Check):
         n = fs.nops
         ok = self._judge(plan, script, concrete, res, fs, killed, kill, faults, out, tr, phase="death" if killed else "clean", lost=())
         if ok and killed and plan["reuse"] and plan.get("restart", True):
-            # a new process starts on the surviving image (same directory because of reuse) and logs a second stream
-            held = set()
-            for ino in list(fs.files.values()) + [r[2] for r in fs.retired]:
-                held.update(ino.data)
-            lost = set(t for (i, p, t) in fs.written if t != HEADER and t not in held)     # died in a user buffer
-            must = self._durable(fs)
+            # a new process starts on the surviving image (same directory because of reuse) and logs a second stream;
+            # then the same again with the second process killed too (two drawn points), and a third one finishing the job
+            import copy
+            lost, must = self._after_death(fs, set())
+            snap = copy.deepcopy(fs)
+            n1 = fs.nops
             fs.revive()
-            env2 = {0: dict((t, [(".sim.v", "value", 2000 + t)]) for t in range(plan["ticks"] + 3))}
-            res2, fs, killed2 = run_logged(script, float(P), env_table=env2, cap=cap, fs=fs)
+            res2, fs, killed2 = run_logged(script, float(P), env_table=self._env(plan, 2000), cap=cap, fs=fs)
             out.probe("restarted-after-kill")
-            self._judge(plan, script, concrete, res2, fs, killed2, kill, faults, out, tr, phase="restart", lost=lost, must=must)
+            out.subruns += 1
+            ok = self._judge(plan, script, concrete, res2, fs, killed2, kill, faults, out, tr, phase="restart", lost=lost, must=must)
+            n2 = fs.nops - n1
+            seconds = plan.get("kill2")
+            if seconds is None:
+                seconds = sorted(set([n1 + n2 // 3, n1 + (2 * n2) // 3])) if n2 > 3 else []
+            for k2 in (seconds if ok else []):
+                fs2 = copy.deepcopy(snap)
+                fs2.revive()
+                fs2.kill_at = k2
+                c2 = dict(concrete, kill2=[k2])
+                r2, fs2, dead2 = run_logged(script, float(P), env_table=self._env(plan, 2000), cap=cap, fs=fs2)
+                if not dead2:
+                    continue
+                out.probe("killed-twice")
+                out.subruns += 2
+                if not self._judge(plan, script, c2, r2, fs2, True, kill, faults, out, tr, phase="second death", lost=lost, must=must):
+                    break
+                lost2, must2 = self._after_death(fs2, lost)
+                fs2.revive()
+                r3, fs2, dead3 = run_logged(script, float(P), env_table=self._env(plan, 3000), cap=cap, fs=fs2)
+                if not self._judge(plan, script, c2, r3, fs2, dead3, kill, faults, out, tr, phase="restart after two deaths", lost=lost2, must=must2):
+                    break
         return n
+
+    @staticmethod
+    def _env(plan, base):
+        return {0: dict((t, [(".sim.v", "value", base + t)]) for t in range(plan["ticks"] + 3))}
+
+    def _after_death(self, fs, lost_before):
+        """(records that died in user buffers so far, records that were flushed before this death and so must survive)."""
+        held = set()
+        for ino in list(fs.files.values()) + [r[2] for r in fs.retired]:
+            held.update(ino.data)
+        lost = set(lost_before) | set(t for (i, p, t) in fs.written if t != HEADER and t not in held)
+        lastflush, need = self._durable(fs)
+        return lost, (lastflush, [t for t in need if t not in lost_before])
 
     @staticmethod
     def _durable(fs):
@@ -147,6 +182,8 @@ class C23(Check):
         sig_cfg = "keep=%d size=%d reuse=%s" % (plan["keep"], plan["size"], plan["reuse"])
         if phase == "restart":
             sig_cfg += " after restart on the surviving image"
+        elif phase != "death" and phase != "clean":
+            sig_cfg += " " + phase
 
         def bad(kind, what, detail):
             out.violate(kind, what, "phase=%s kill=%r faults=%r killed_op=%r: %s\nfiles=%r\nlast ops=%r\n%s"
@@ -231,7 +268,7 @@ class C23(Check):
         else:
             # durability: every record written before the most recent completed flush of its file is present
             lastflush, need_t = self._durable(fs)
-            need = [pos[t] for t in need_t]
+            need = [pos[t] for t in need_t if t in pos]
             gone = [i for i in need if i not in seen and i not in designed]
             if gone:
                 return bad("not-durable", "records written before the most recent flush are gone after the process died [%s]" % sig_cfg,
